@@ -260,10 +260,106 @@ PROPS["C12"] = dict(
     note="Trusted: TLC, Json module, the projection and renderer in the harness, the alphabet's pattern-match table.")
 
 
+# ---------------------------------------------------------------------------------- pipe (C03 C04 C07 C08 C17-C21 C26)
+def corrupt_pipe(lines, pid):
+    for e in lines:
+        ev = e.get("ev")
+        if pid == "C03" and ev == "fmt" and e.get("parseOK") == 1:
+            e["idempotent"] = 0
+            return "idempotent flag of a formatted program cleared"
+        if pid == "C04" and ev == "fmt" and e.get("compiles") == 1:
+            e["sameMeaning"] = 0
+            return "same-meaning flag of a formatted program cleared"
+        if pid == "C07" and ev == "compile":
+            e["ok"], e["errPositioned"] = 0, 0
+            return "a compile result turned into an unpositioned error"
+        if pid == "C08" and ev == "recompile":
+            e["digests"][0] = "tampered"
+            return "one recompilation digest replaced"
+        if ev == "layout" and e.get("ok") == 1:
+            g = e["geom"]
+            if pid == "C17" and g["objs"]:
+                g["objs"][0]["finite"] = 0
+                return "an object position marked non-finite"
+            if pid == "C18" and e["struct"]["boards"] and e["struct"]["boards"][0]["objs"]:
+                e["struct"]["boards"][0]["objs"].pop()
+                return "an object dropped from the structure after layout"
+            if pid == "C19":
+                for o in g["objs"]:
+                    if o["parent"] and not o["inSeq"] and not g["objs"][o["parent"] - 1]["isSeq"]:
+                        o["x"] -= 500
+                        return "a child moved 500 px left of its container"
+            if pid == "C20":
+                for ed in g["edges"]:
+                    if not ed["inSeq"] and len(ed["route"]) >= 2 and ed["src"] != ed["dst"]:
+                        ed["route"][0][0] += 700
+                        return "the first route point of a connection moved 700 px away"
+            if pid == "C21":
+                for o in g["objs"]:
+                    if o["ew"] and o["eh"] and o["kids"] == 0 and not o["inSeq"] and o["shape"] not in ("square", "circle") and not (o["parent"] and g["objs"][o["parent"] - 1]["grid"]):
+                        o["w"] += 9
+                        return "width of an explicitly sized leaf increased by 9"
+        if pid == "C26" and ev == "serde":
+            e["sameResult"] = 0
+            return "wire-format result flagged as different"
+    return None
+
+
+def _pipe_family(name, modes, stages, n, space, engines="dagre"):
+    FAMILIES[name] = dict(vdrive="pipe", trace_module="TracePipeline", trace_cfg="TracePipeline.cfg", corrupt=corrupt_pipe, engine="TracePipeline",
+                          args={"modes": modes, "stages": stages, "n": str(n), "space": str(space), "engines": engines}, chunk=1500, heap="4g")
+
+
+_pipe_family("pipe_fmt", "text", "fmt", 300, 1200)
+_pipe_family("pipe_compile", "text,text-mut", "compile", 400, 1600)
+_pipe_family("pipe_det", "text", "determinism", 150, 1200)
+_pipe_family("pipe_layout", "layout,layout-tricky", "layout", 100, 1200, "dagre,elk")
+_pipe_family("pipe_serde", "layout,layout-tricky", "layout,serde", 60, 1200, "dagre,elk")
+
+_pipe_note = "Trusted: TLC, Json module, the generator harness/internal/gen, the projection (real ParseKey) and the geometry extraction in harness/cmd/vdrive/pipe.go."
+_pipe_space = ("the input space is FIXED: diagram #i of a mode is generated from seed i by harness/internal/gen whatever VERIF_SEED is; the thorough tier takes all of it, the quick tier the slice VERIF_SEED selects, "
+               "so the unchanged tree's behaviour on every input is known in advance. ")
+def _pp(pid, fam, design, technique, rule, text, assumptions, exhaustive=True):
+    PROPS[pid] = dict(family=fam, level="exploration", design_ref=design, technique=technique, rule=_pipe_space + rule, exhaustive=dict(quick=False, thorough=exhaustive),
+                      assumptions=assumptions, text=text, note=_pipe_note)
+
+_gen_text = "mode text: object trees of 1-6 objects with plain and tricky names/labels (quotes, dots, unicode, XML metacharacters, keywords), containers, styles, classes, markdown, grids, sequence diagrams, near constants, and layers/scenarios/steps blocks placed before, between or after the other declarations; "
+_pp("C03", "pipe_fmt", "4.11", "stage guard on Format: TLC evaluates parse(fmt(x)) ok and fmt(fmt(x)) = fmt(x) on the real formatter's output for every generated program",
+    _gen_text + "1200 programs. Non-trivial: the program parses.", "Format is a stage transition of TracePipeline; its guard is the property.",
+    ["byte equality of the two formatter outputs is computed in Go and judged by TLC as a flag"])
+_pp("C04", "pipe_fmt", "4.11", "stage guard on Format: the projection (all boards: objects, labels, shapes, attributes, connections with index) of compile(x) must equal that of compile(fmt(x)), judged by TLC",
+    _gen_text + "1200 programs. Non-trivial: the program compiles.", "Same stage as C03 with the meaning-preservation guard.",
+    ["meaning = harness/internal/proj digest of every board (IDs, parents, labels, shapes, every attribute, connections with endpoints/arrows/index/labels)"])
+_pp("C07", "pipe_compile", "4.11", "totality monitor on Compile: every call returns a graph or positioned errors, never panics or hangs, within a time bound linear in the input; inputs incl. 1-3 random damages and reserved keywords/config keys with every value shape",
+    _gen_text + "plus mode text-mut: the same programs damaged in 1-3 places (byte deletion/insertion of structural tokens, truncation, duplication, line swaps) or prefixed with reserved/config keywords given scalar, map, array, null, import and substitution values; 1600 x 2 inputs. Non-trivial: more than 20 bytes.",
+    "Compile is a stage transition whose guard is the totality contract.", ["time bound 3000 ms + 1 ms per input byte", "import sets are not generated here (no importable files)"])
+_pp("C08", "pipe_det", "4.11", "Compile stage run 1 + 6 concurrent + 2 sequential times per program; TLC checks that the relation input -> projection digest is functional",
+    _gen_text + "1200 programs, each compiled 9 times (6 from concurrent goroutines). Non-trivial: the program compiles.", "Determinism guard of the Compile stage.",
+    ["GOMAXPROCS is the machine default; the race detector is not used in this check"])
+_gen_layout = ("mode layout: 1-7 objects, all 17 shapes, containers to depth 3, explicit sizes, styles (3d, multiple, shadow, fonts), icons, root direction, up to 5 connections (incl. self loops and containers), "
+               "grids, sequence diagrams, constant nears; mode layout-tricky: names/labels with special characters, markdown; every 4th diagram laid out with ELK, the others with dagre; 2 x 1200 diagrams. ")
+_lay_assume = ["coordinates are rounded to whole pixels; tolerances: containment/overlap 1 px, connection ends 2 px",
+               "visual extent of a shape = box + outside label (label size + 5 px padding) + outside icon (64 + 5 px) + 3D (15 px) / multiple (10 px) offsets, as C20 defines it",
+               "connection ends on non-rectangular shapes are only required to lie within the extent (their outline is C27's subject)"]
+_pp("C17", "pipe_layout", "4.11", "totality monitor on Layout(dagre|elk) + Render: no error, no panic, no hang; TLC checks finiteness, non-negative sizes and routes of >= 2 points on the logged geometry",
+    _gen_layout + "Non-trivial: every diagram.", "Layout/Render are stage transitions; the guard is the contract of C17.", _lay_assume)
+_pp("C18", "pipe_layout", "4.10", "TLC compares the structure lists (objects with parents, connections with endpoints/arrows/index, in order, per board) logged after compile and after layout",
+    _gen_layout + "Non-trivial: every diagram.", "Frame condition of the Layout stage.", ["lifeline pseudo-edges appended by the sequence layout (an endpoint that is not an object of the board) are excluded"] + _lay_assume)
+_pp("C19", "pipe_layout", "4.11", "Layout stage guard evaluated by TLC on logged boxes: child inside parent (1 px), siblings disjoint (1 px), shapes inside sequence diagrams excluded",
+    _gen_layout + "Non-trivial: at least two objects.", "Geometric guard of the Layout stage on a fixed input space; the unchanged tree's violations on that space are all listed as known findings.", _lay_assume)
+_pp("C20", "pipe_layout", "4.11", "Layout stage guard evaluated by TLC: first/last route point within the source's/destination's visual extent (2 px) and, for box-shaped shapes, not in the interior of the box",
+    _gen_layout + "Non-trivial: at least one connection.", "Geometric guard of the Layout stage on a fixed input space.", _lay_assume)
+_pp("C21", "pipe_layout", "4.11", "Layout stage guard evaluated by TLC: explicit width/height of leaves honoured exactly (square/circle: the larger), label box within the shape's inner box for auto-sized shapes with an inside label",
+    _gen_layout + "Non-trivial: every diagram.", "Size guard of the Layout stage.", _lay_assume + ["the inner text box is the shape library's own GetInnerBox (trusted)", "tables, classes, code and text shapes are not generated"])
+_pp("C26", "pipe_serde", "4.11", "the whole pipeline run a second time with every core-layout call going through SerializeGraph -> DeserializeGraph -> layout -> SerializeGraph -> DeserializeGraph (what d2plugin exec/serve do); TLC checks each round trip and the final geometry/structure against the in-process run",
+    _gen_layout + "Non-trivial: every diagram.", "Serialize;Deserialize stage guards.", ["an external plugin process is not spawned; the wire functions are the ones exec.go/serve.go call"] + _lay_assume)
+
+
 # ------------------------------------------------------------------------------- manifest data
 HOOK_COMMITS = ["9d004ebd4", "879b5d739"]
 
 ENGINES = {
+    "TracePipeline": dict(path="specs/TracePipeline.tla", kind="TLA+ stage machine of the tool chain whose per-stage guards are the properties; TLC evaluates them on the facts logged from the real stages for a fixed generated input space"),
     "TraceD2IR": dict(path="specs/D2IR.tla, specs/TraceD2IR.tla, specs/ir_alphabet.json", kind="TLA+ reference interpreter of the D2 core fragment (TLC, all programs within bound) + TLC comparison of every compiled program prefix with the model state"),
     "TraceImgBundle": dict(path="specs/ImgBundle.tla, specs/TraceImgBundle.tla", kind="TLA+ model of imgbundler.runWorkers (TLC, all interleavings x failure subsets) + TLC validation of real runs with imposed completion orders"),
     "TraceD2Watch": dict(path="specs/D2Watch.tla, specs/TraceD2Watch.tla", kind="TLA+ model of d2 --watch concurrency (TLC safety+liveness) + TLC trace validation of hook traces of the real watcher (D2Watch instantiated over the replayed state)"),
